@@ -145,6 +145,7 @@ def vectorising(repo, gj, problems):
 
 
 SINK_NAMES = {"eval", "exec", "compile", "print", "input", "open", "__import__", "exit", "quit"}
+SYMPY_EVAL = {"nsimplify", "sympify", "parse_expr", "S"}
 SINK_ATTRS = {"urlopen", "literal_eval", "system", "popen", "Popen", "run", "call", "check_output", "exit"}
 
 
@@ -179,6 +180,19 @@ def _sinks_in(tree, where, rows):
                         base = ast.unparse(f.value)
                         if base.split(".")[0] in ("os", "subprocess", "sys", "urllib", "ast", "request"):
                             name = base + "." + f.attr
+                    # sympy entry points that *evaluate* a string argument (sympify -> parse_expr -> eval): listed unless the
+                    # first argument is syntactically a number (a numeric constant, arithmetic, or a call of a numeric function)
+                    if name is None and ch.args and (
+                            (isinstance(f, ast.Attribute) and f.attr in SYMPY_EVAL and ast.unparse(f.value) == "sympy")
+                            or (isinstance(f, ast.Name) and f.id in SYMPY_EVAL)):
+                        a0 = ch.args[0]
+                        numeric = (isinstance(a0, (ast.BinOp, ast.UnaryOp))
+                                   or (isinstance(a0, ast.Constant) and isinstance(a0.value, (int, float)))
+                                   or (isinstance(a0, ast.Call) and (
+                                       (isinstance(a0.func, ast.Attribute) and ast.unparse(a0.func.value) in ("sympy", "math", "mpmath"))
+                                       or (isinstance(a0.func, ast.Name) and a0.func.id in ("int", "float", "len", "abs", "round")))))
+                        if not numeric:
+                            name = "sympy-eval:" + ast.unparse(ch)[:60]
                     if name:
                         rows.append((where + (("." + nfn) if nfn else ""), name, guard_of(nstack)))
                 visit(ch, nfn, nstack)
